@@ -126,9 +126,13 @@ class HistGen:
         ops = []
         for _ in range(r.randint(1, 4)):
             ops.append("ADD " + self.new_order())
+        heavy = getattr(self, "upd_heavy", False)
         while len(ops) < n_ops:
             x = r.random()
-            if x < 0.30:
+            if heavy and x < 0.75 and self.used:
+                # small book, mostly cancels / amendments: dead queue entries pile up
+                ops.append("UPD " + self.update() if r.random() < 0.85 else "MATCH %d u%d" % (r.choice([1, 3, 8]), 5000 + len(ops)))
+            elif x < 0.30:
                 ops.append("ADD " + self.new_order())
             elif x < 0.58:
                 q = r.choice([1, 2, 3, 5, 8, 13, 40, 200]) if r.random() < 0.8 else r.choice([1 << 40, (1 << 64) - 1])
